@@ -613,6 +613,10 @@ def family_deep(seed=0, nmax=5, extra=24):
             mk(n, edges, [2] * (n - 1) + [1], lab)      # cleanups everywhere, the first-called provider can fail
             mk(n, edges, [1] + [2] * (n - 1), lab)      # the last-called provider fails with n-1 cleanups live
             mk(n, edges, [3, 0, 3, 0, 3][:n], lab)
+    # more than nine cleanups in one injector (names cleanup, cleanup2, ..., cleanup10, ...: numeric, not lexicographic, order)
+    mk(11, [(i, i + 1) for i in range(10)], [2] * 11, 'long chain')
+    mk(12, [(i, i + 1) for i in range(11)], [3] * 9 + [2, 2, 3], 'long chain')
+    mk(11, [(0, j) for j in range(1, 11)], [2] * 10 + [3], 'wide star')
     for _ in range(extra):
         n = rnd.choice([4, 5][: max(1, nmax - 3)])
         pairs = [(i, j) for i in range(n) for j in range(i + 1, n)]
@@ -1200,6 +1204,57 @@ def family_frontend():
                          '\tvrt.Reset()\n\t_ = Inject()\n\tvrt.Cover("zoo-checked")\n}\n'),
     }
     specs.append(RawSpec(files2, 'copied declarations whose locals collide with each other after renaming (same scope)', family='frontend', extra_pkgs=extra, compile_props=['C01', 'C15', 'C14']))
+    return specs
+
+
+def family_variadic():
+    """F9: variadic providers in every result shape. Conn <- Store(conn, opts...) <- App(store); the variadic
+    arguments come from a variadic injector parameter. Full trace oracle under all fault schedules."""
+    specs = []
+    combos = [((True, True), s_, a_) for s_ in FLAGS for a_ in FLAGS] + [(c_, (True, True), (True, False)) for c_ in FLAGS[:3]]
+    for cf, sf, af in combos:
+        def stub(k, name, params, args, flags, ret):
+            he, hc = flags
+            rets = [ret] + (['func()'] if hc else []) + (['error'] if he else [])
+            out = ['func %s(%s) (%s) {' % (name, params, ', '.join(rets)), '\tvar args []int']
+            out += ['\t' + a for a in args]
+            out.append('\tid, err := vrt.Call(%d, %s, args...)' % (k, 'true' if he else 'false'))
+            if he:
+                out.append('\tif err != nil {\n\t\treturn %s{}%s, err\n\t}' % (ret, ', vrt.FailedCleanupFn(%d)' % k if hc else ''))
+            else:
+                out.append('\t_ = err')
+            out.append('\treturn %s' % ', '.join(['%s{ID: id}' % ret] + (['vrt.CleanupFn(%d)' % k] if hc else []) + (['nil'] if he else [])))
+            out.append('}\n')
+            return '\n'.join(out)
+        prov = ['package {PKG}\n', 'import "example.com/corpus/vrt"\n', 'type Opt struct{ ID int }\ntype Conn struct{ ID int }\ntype Store struct{ ID int }\ntype App struct{ ID int }\n',
+                stub(2, 'NewConn', '', [], cf, 'Conn'),
+                stub(1, 'NewStore', 'c Conn, opts ...Opt', ['args = append(args, c.ID)', 'for _, o := range opts {\n\t\targs = append(args, o.ID)\n\t}'], sf, 'Store'),
+                stub(0, 'NewApp', 's Store', ['args = append(args, s.ID)'], af, 'App')]
+        ne = cf[0] or sf[0] or af[0]
+        nc = cf[1] or sf[1] or af[1]
+        rets = ['App'] + (['func()'] if nc else []) + (['error'] if ne else [])
+        sig = '(%s)' % ', '.join(rets) if len(rets) > 1 else rets[0]
+        wf = '//go:build wireinject\n// +build wireinject\n\npackage {PKG}\n\nimport "github.com/google/wire"\n\nfunc Inject(opts ...Opt) %s {\n\tpanic(wire.Build(NewConn, NewStore, NewApp))\n}\n' % sig
+        lhs = ['res'] + (['cleanup'] if nc else []) + (['err'] if ne else [])
+        b = lambda x: str(x).lower()
+        drv = ['//go:build !wireinject\n// +build !wireinject\n', 'package {PKG}\n', 'import "example.com/corpus/vrt"\n', 'var _ func(...Opt) %s = Inject\n' % sig, 'func VDrive() {',
+               '\tspec := &vrt.Spec{RetErr: %s, RetCleanup: %s}' % (b(ne), b(nc)),
+               '\tspec.Nodes = []vrt.Node{',
+               '\t\t{Name: "NewApp", Kind: vrt.KFunc, HasErr: %s, HasCleanup: %s, Params: []vrt.Ref{{Node: 1}}},' % (b(af[0]), b(af[1])),
+               '\t\t{Name: "NewStore", Kind: vrt.KFunc, HasErr: %s, HasCleanup: %s, Params: []vrt.Ref{{Node: 2}, {Node: 3, Comp: 0}, {Node: 3, Comp: 1}}},' % (b(sf[0]), b(sf[1])),
+               '\t\t{Name: "NewConn", Kind: vrt.KFunc, HasErr: %s, HasCleanup: %s},' % (b(cf[0]), b(cf[1])),
+               '\t\t{Name: "opts", Kind: vrt.KArg},', '\t}',
+               '\tspec.Result = []vrt.Ref{{Node: 0}}',
+               '\tfor round := 0; round < 2; round++ {', '\t\tvrt.Round = round\n\t\tvrt.Reset()',
+               '\t\ta, b := vrt.ArgID("o0"), vrt.ArgID("o1")', '\t\tspec.ArgIDs = [][]int{nil, nil, nil, {a, b}}',
+               '\t\t%s := Inject(Opt{ID: a}, Opt{ID: b})' % ', '.join(lhs),
+               '\t\tout := vrt.Outcome{Result: []int{res.ID}}',
+               ('\t\tout.Cleanup = cleanup\n\t\tout.CleanupNil = cleanup == nil' if nc else '\t\tout.CleanupNil = true'),
+               ('\t\tout.Err = err' if ne else ''),
+               '\t\tvrt.Check(spec, out)', '\t}\n}\n']
+        files = {'providers.go': '\n'.join(prov), 'wire.go': wf, 'zz_driver.go': '\n'.join(drv)}
+        specs.append(RawSpec(files, 'variadic provider (err=%s cleanup=%s) between Conn (err=%s cleanup=%s) and App (err=%s cleanup=%s), variadic injector' % (sf[0], sf[1], cf[0], cf[1], af[0], af[1]),
+                             family='variadic', compile_props=['C01', 'C03']))
     return specs
 
 
